@@ -24,6 +24,7 @@ struct ConfigWorld : World {
 		       "\"stub\":[\"allocator (ledger + n-th allocation fails)\",\"path -> value tree map reference model per store\"]}";
 	}
 	ConfigWorld() {
+		registry_global = true;      // the type tables are made on first use and live as long as the process; which table a run touches first depends on the implementation chosen (cimpl)
 		// lazily created process-global state (type tables, global config exit handler) comes into being here, outside any run
 		mpt_config_set(0, "warm.up", "1", '.', 0); mpt_config_set(0, 0, 0, '.', 0);
 		std::string big(300, 'v'); mpt_config_set(0, "warm", big.c_str(), '.', 0); mpt_config_set(0, 0, 0, '.', 0);
